@@ -80,7 +80,7 @@ _FLAG = re.compile(r'<<"FLAG", "([^"]+)", (-?\d+), (\d+)>>')
 _SUMMARY = re.compile(r'^"SUMMARY (.*)"$', re.M)
 
 
-def tlc(spec_dir_files, tla, cfg, workdir, workers="1", timeout=1800, constants=None, extra=None, coverage=False, cfg_text=None):
+def tlc(spec_dir_files, tla, cfg, workdir, workers="1", timeout=1800, constants=None, extra=None, coverage=False, cfg_text=None, heap="3g"):
     """Runs TLC in workdir (a fresh copy of the spec files). Returns a dict with the parsed output."""
     os.makedirs(workdir, exist_ok=True)
     for f in os.listdir(os.path.join(VERIF, "spec")):
@@ -97,7 +97,7 @@ def tlc(spec_dir_files, tla, cfg, workdir, workers="1", timeout=1800, constants=
     tmp = os.path.join(workdir, "tmp")
     os.makedirs(tmp, exist_ok=True)
     env = dict(os.environ)
-    env["JAVA_TOOL_OPTIONS"] = (env.get("JAVA_TOOL_OPTIONS", "") + " -Djava.io.tmpdir=" + tmp + " -Xss64m").strip()
+    env["JAVA_TOOL_OPTIONS"] = (env.get("JAVA_TOOL_OPTIONS", "") + " -Djava.io.tmpdir=" + tmp + " -Xss64m -Xmx" + heap).strip()
     cmd = ["tlc", "-workers", str(workers), "-metadir", meta, "-config", cfg]
     if coverage:
         cmd += ["-coverage", "1"]
